@@ -502,6 +502,8 @@ def run_case(run, case, deadline=None):
                 # infeasible once the universally quantified facts are instantiated at the registered indices
                 stats["infeasible_paths"] = stats.get("infeasible_paths", 0) + 1
                 continue
+            # derived lemmas about float modulo: proved first (cheap, linear), then available to the main queries
+            _mod_lemmas(c, stats)
             # requirements of the real code (no crash inside numpy semantics)
             for cond, msg in c.requirements:
                 nm = "%s.no-crash" % case.name
@@ -559,6 +561,41 @@ def run_case(run, case, deadline=None):
     if n_paths == 0:
         run.error(case.name, "no feasible path")
     return stats
+
+
+def _mod_lemmas(c, stats):
+    """For r_i = x_i - k_i*d in [0, d) (fresh-quotient encoding of x % d):  (x2 - x1)/d integral  =>  r1 == r2."""
+    mods = c.mods[:8]
+    done = c.__dict__.setdefault("_mod_lemmas_done", set())
+    for a in range(len(mods)):
+        for b in range(a + 1, len(mods)):
+            x1, d1, k1 = mods[a]
+            x2, d2, k2 = mods[b]
+            if not z3.eq(d1, d2) or (a, b) in done:
+                continue
+            done.add((a, b))
+            r1 = x1 - z3.ToReal(k1) * d1
+            r2 = x2 - z3.ToReal(k2) * d1
+            quot = z3.simplify((x2 - x1) / d1, som=True)
+            zt = None
+            if z3.is_app(quot) and quot.decl().kind() == z3.Z3_OP_TO_REAL:
+                zt = quot.arg(0)
+            elif z3.is_rational_value(quot) and quot.denominator_as_long() == 1:
+                zt = z3.IntVal(quot.numerator_as_long())
+            if zt is None:
+                continue
+            # x2 - x1 is syntactically an integer multiple zt of d: then the two remainders coincide.
+            # proved in a fresh solver from the two range facts alone (linear mixed integer/real)
+            s2 = z3.Solver()
+            s2.set("timeout", 10000)
+            y1 = z3.Real("lemma_y")       # stands for x1 / d (scaled form: unit coefficients on the integers)
+            q1 = y1 - z3.ToReal(k1)
+            q2 = y1 + z3.ToReal(zt) - z3.ToReal(k2)
+            s2.add(q1 >= 0, q1 < 1, q2 >= 0, q2 < 1, k2 != k1 + zt)
+            stats["queries"] = stats.get("queries", 0) + 1
+            if s2.check() == z3.unsat:
+                c.add_side(k2 == k1 + zt)
+                stats["mod_lemmas"] = stats.get("mod_lemmas", 0) + 1
 
 
 def _small_model(c, w, cl, m):
